@@ -75,16 +75,17 @@ pub fn split_file(
                         let index =  attrs[pos].0;
                         let s   = &attrs[pos].2;
 
+                        // `end` is the first byte behind the attribute, it stays in place
                         if edit_attr.remove {
 
                             let end = index + s.len();
-                            prefix.replace_range(index..=end, "");
+                            prefix.replace_range(index..end, "");
 
                         } else {
 
                             let end = index + s.len();
-                            let new_attr_str = nested::edit_remove_active_file_args(s,&prefix[index..=end]);
-                            prefix.replace_range(index..=end, &new_attr_str);
+                            let new_attr_str = nested::edit_remove_active_file_args(s,&prefix[index..end]);
+                            prefix.replace_range(index..end, &new_attr_str);
 
                         }
                         return (prefix,suffix.into());
